@@ -3,9 +3,24 @@ import RsMatterVerif.Model.CaseNet
 /-!
 # C01 — the handshake over an adversarial network (`Model/CaseNet.lean`)
 
-One theorem over the model's run function with the adversary's schedule as a list of network
-operations, proved by induction over the schedule (`net_single_mutation_full`,
-`net_single_mutation_resume`).
+Theorems over the model's run function with the adversary's schedule as a list of network
+operations, proved by induction over the schedule.
+
+* reference = the untouched run computed by `Net.run` on `honestOps` (`refI`, `refR`;
+  `honest_run_full`, `honest_run_resume` give it in general, not on samples);
+* `net_single_mutation_full` (outcome `OutcomeFull`: no session / the untouched run's session / for the
+  initiator, when the untouched run fails at the responder, the half-open session `HalfOpen` after a
+  forged success report), `net_single_mutation_full_strict` (untouched run succeeds ⇒ the clause as the
+  property states it), `net_no_forgery_full` (no attacker-made message ⇒ the clause as stated),
+  `half_open_authenticated`, `net_full_session_keys_secret`, `net_full_keys_agree`;
+* `net_single_mutation_resume` (`OutcomeRes`), `net_resume_keys_agree`; `C01_network`.
+
+Limits (stated in the docstrings, `props/C01.json` and `docs/C01.md`): ONE exchange per end; at most
+ONE attacker-made message per schedule (an attacker that plays a whole handshake as initiator needs
+two — that case is covered per step only: `responder_session_implies_auth`, `sigma3_unforgeable`);
+attacker knowledge = this exchange's wire + the IPK + its own secrets, keys and certificates (terms
+of earlier handshakes under the same resumption secret are not derivable); the certificate
+hypothesis `hcert` quantifies over chains the attacker can present (leaf AND intermediate in `A.C`).
 -/
 namespace C01
 open Cert Case
@@ -172,17 +187,23 @@ theorem not_G_kdf {H S C E} {x y : Nat} (hx : x ∈ H) (hy : y ∈ H) (s i : Ter
     ¬ G H S C E (.kdf (.shared x y) s i) := by
   intro h; simp only [G] at h; exact h.1 ⟨hx, hy⟩
 
-/-- responder, resumption: the `Resume1MIC` it accepted is an honest one -/
-theorem respResume_G {H S C E} (fabrics : List Fabric) (cache : List ResRec) (m : Msg) (newRid sid : Term)
-    (cx : RespResumeCtx)
+/-- responder, resumption: whenever `try_handle_sigma1_resume` does not fall through (it resumes,
+or aborts after `Sigma2_Resume` went out), the `Resume1MIC` it accepted is an honest one -/
+theorem respResumeStep_G {H S C E} (fabrics : List Fabric) (cache : List ResRec) (m : Msg) (newRid sid : Term)
     (hc : ∀ r ∈ cache, ∃ x y, r.secret = .shared x y ∧ x ∈ H ∧ y ∈ H)
-    (h : respResume fabrics cache m newRid sid = some cx) (hg : G H S C E m.toTerm) :
-    ∃ rec ∈ cache, ∃ iRnd iSid dest iEph,
+    (h : respResumeStep fabrics cache m newRid sid ≠ .fallThrough) (hg : G H S C E m.toTerm) :
+    ∃ rec iRnd iSid dest iEph, cache.find? (fun r => r.rid == rec.rid) = some rec ∧
       m = .sigma1 iRnd iSid dest iEph
         (some (rec.rid, Term.mic (resumeKey rec.secret iRnd rec.rid infoS1RK) nonceR1)) ∧
-      Term.mic (resumeKey rec.secret iRnd rec.rid infoS1RK) nonceR1 ∈ E := by
-  obtain ⟨rec, hrec, iRnd, iSid, dest, iEph, hm, _⟩ := respResume_some fabrics cache m newRid sid cx h
-  refine ⟨rec, hrec, iRnd, iSid, dest, iEph, hm, ?_⟩
+      Term.mic (resumeKey rec.secret iRnd rec.rid infoS1RK) nonceR1 ∈ E ∧
+      ((∃ fb cx, fabrics.find? (fun f => f.idx == rec.fabIdx) = some fb ∧
+          respResumeStep fabrics cache m newRid sid = .sent cx) ∨
+       (fabrics.find? (fun f => f.idx == rec.fabIdx) = none ∧
+          respResumeStep fabrics cache m newRid sid =
+            .aborted (.sigma2Resume newRid (Term.mic (resumeKey rec.secret iRnd newRid infoS2RK) nonceR2) sid))) := by
+  obtain ⟨rec, iRnd, iSid, dest, iEph, hfind, hm, hcase⟩ := respResumeStep_accepts fabrics cache m newRid sid h
+  have hrec : rec ∈ cache := List.mem_of_find?_eq_some hfind
+  refine ⟨rec, iRnd, iSid, dest, iEph, hfind, hm, ?_, hcase⟩
   obtain ⟨x, y, hsec, hx, hy⟩ := hc rec hrec
   rw [hm] at hg
   simp only [Msg.toTerm, resumeTerm, G] at hg
@@ -192,6 +213,18 @@ theorem respResume_G {H S C E} (fabrics : List Fabric) (cache : List ResRec) (m 
     have := h1.1
     rw [resumeKey, hsec] at this
     exact not_G_kdf hx hy _ _ this
+
+theorem respResume_G {H S C E} (fabrics : List Fabric) (cache : List ResRec) (m : Msg) (newRid sid : Term)
+    (cx : RespResumeCtx)
+    (hc : ∀ r ∈ cache, ∃ x y, r.secret = .shared x y ∧ x ∈ H ∧ y ∈ H)
+    (h : respResume fabrics cache m newRid sid = some cx) (hg : G H S C E m.toTerm) :
+    ∃ rec ∈ cache, ∃ iRnd iSid dest iEph,
+      m = .sigma1 iRnd iSid dest iEph
+        (some (rec.rid, Term.mic (resumeKey rec.secret iRnd rec.rid infoS1RK) nonceR1)) ∧
+      Term.mic (resumeKey rec.secret iRnd rec.rid infoS1RK) nonceR1 ∈ E := by
+  obtain ⟨rec, iRnd, iSid, dest, iEph, hfind, hm, hmem, _⟩ := respResumeStep_G fabrics cache m newRid sid hc
+    (by rw [(respResumeStep_sent_iff _ _ _ _ _ cx).2 h]; intro h'; cases h') hg
+  exact ⟨rec, List.mem_of_find?_eq_some hfind, iRnd, iSid, dest, iEph, hm, hmem⟩
 
 /-- responder, Sigma3 -/
 theorem respSigma3_G {H S C E} (t : Time) (ctx : RespCtx) (m : Msg) (p : Session × ResRec)
@@ -211,10 +244,17 @@ theorem respSigma3_G {H S C E} (t : Time) (ctx : RespCtx) (m : Msg) (p : Session
     rw [s3k, hsec] at this
     exact not_G_kdf hx hy _ _ this
 
+/-- an intermediate certificate inside an attacker-made plaintext is one the attacker can present -/
+theorem G_optCert {H S C E} {o : Option Cert} (h : G H S C E (optCert o)) : ∀ i ∈ o, C i := by
+  intro i hi
+  cases o with
+  | none => cases hi
+  | some c => cases hi; exact h
+
 /-- initiator, Sigma2: either the ciphertext is an honest one, or the attacker made it — then
 it carries a certificate of `C` for the addressed node id and a signature under its key -/
 theorem initSigma2_G {H S C E} (t : Time) (c : InitCtx) (m : Msg) (c3 : InitCtx3)
-    (hcert : ∀ noc ic, C noc → CaseValid t c.fabric.view noc ic →
+    (hcert : ∀ noc ic, C noc → (∀ i ∈ ic, C i) → CaseValid t c.fabric.view noc ic →
       nodeIdOf noc.subject = some c.peerNode → ¬ S noc.pubKey)
     (h : initSigma2 t c m = some c3) (hg : G H S C E m.toTerm) :
     ∃ rRnd rSid rEph pl, m = .sigma2 rRnd rSid rEph
@@ -232,7 +272,7 @@ theorem initSigma2_G {H S C E} (t : Time) (c : InitCtx) (m : Msg) (c3 : InitCtx3
     simp only [tbe2, G] at h3
     have hs := h3.2.2.1
     rw [hsig] at hs
-    exact hcert noc icac h3.1 hv hn hs.1
+    exact hcert noc icac h3.1 (G_optCert h3.2.1) hv hn hs.1
 
 /-- initiator, resumption: the `Resume2MIC` it accepted is an honest one -/
 theorem initSigma2Resume_G {H S C E} (c : InitCtx) (m : Msg) (p : Session × ResRec)
@@ -276,10 +316,12 @@ structure FullSetting (A : Attacker) (cfg : HsCfg) where
   hcacheR : ∀ r ∈ cfg.cacheR, ∃ x y, r.secret = .shared x y ∧ x ∈ A.H ∧ y ∈ A.H
   /-- the initiator has no record for this peer: it runs the full handshake -/
   hfull : cfg.init0.cached = none
-  /-- the attacker cannot sign under a key that a certificate valid for the initiator's fabric
-  certifies for the addressed node id -/
-  hcert : ∀ c ic, A.C c → CaseValid cfg.t cfg.fI.view c ic → nodeIdOf c.subject = some cfg.peer →
-    ¬ A.S c.pubKey
+  /-- no chain the attacker can PRESENT (leaf and intermediate, if any, both among its certificates
+  `A.C`) that is valid for the initiator's fabric and names the addressed node id certifies a key the
+  attacker can sign with.  Derivable from the provenance of its certificates: `hcert_of_provenance`
+  (`Props/C01.lean`); inhabited for an insider that can present any self-made record: `exFullSetting` -/
+  hcert : ∀ c ic, A.C c → (∀ i ∈ ic, A.C i) → CaseValid cfg.t cfg.fI.view c ic →
+    nodeIdOf c.subject = some cfg.peer → ¬ A.S c.pubKey
 
 /-- the responder's context in the untouched run (if it answers Sigma1 at all) -/
 def hCtx (cfg : HsCfg) : Option RespCtx :=
@@ -616,6 +658,17 @@ structure Clean (cfg : HsCfg) (i : IState) (r : RState) (wire : List Msg) : Prop
   /-- as long as the responder has not been handed anything, nobody has made progress -/
   idle : r = .idle → (∀ w ∈ wire, w = cfg.init0.s1 ∨ w = .status false) ∧
     (i = .sent1 cfg.init0 ∨ i = .done none)
+  /-- a success report is on the wire only if the responder of the untouched run completes -/
+  st_ok : Msg.status true ∈ wire → (hResR cfg).isSome = true
+
+theorem st_ok_append {cfg : HsCfg} {wire : List Msg} {m : Msg}
+    (h : Msg.status true ∈ wire → (hResR cfg).isSome = true) (hm : m ≠ .status true) :
+    Msg.status true ∈ wire ++ [m] → (hResR cfg).isSome = true := by
+  intro hw
+  rcases List.mem_append.1 hw with h' | h'
+  · exact h h'
+  · simp only [List.mem_cons, List.not_mem_nil, or_false] at h'
+    exact absurd h'.symm hm
 
 theorem clean_resp {A : Attacker} {cfg : HsCfg} (hs : FullSetting A cfg) {i : IState} {r : RState}
     {wire : List Msg} (hc : Clean cfg i r wire) (m : Msg)
@@ -625,16 +678,14 @@ theorem clean_resp {A : Attacker} {cfg : HsCfg} (hs : FullSetting A cfg) {i : IS
   rcases hc.r_ok with hr | ⟨ctx, hcx, hr⟩ | hr | hr
   · -- idle
     obtain ⟨hwi, hii⟩ := hc.idle hr
-    have hres : respResume cfg.fabricsR cfg.cacheR m cfg.ridR cfg.sidR = none := by
-      cases hrr : respResume cfg.fabricsR cfg.cacheR m cfg.ridR cfg.sidR with
-      | none => rfl
-      | some cx =>
-        exfalso
-        obtain ⟨rec, _, _, _, _, _, _, hmem⟩ := respResume_G _ _ _ _ _ cx hs.hcacheR hrr hg
-        obtain ⟨w, hww, hwe⟩ := List.mem_flatMap.1 hmem
-        rcases hwi w hww with h | h
-        · rw [h, s1_shape hs] at hwe; simp [encOf] at hwe
-        · rw [h] at hwe; simp [encOf] at hwe
+    have hres : respResumeStep cfg.fabricsR cfg.cacheR m cfg.ridR cfg.sidR = .fallThrough := by
+      apply Classical.byContradiction
+      intro hrr
+      obtain ⟨rec, _, _, _, _, _, _, hmem, _⟩ := respResumeStep_G _ _ _ _ _ hs.hcacheR hrr hg
+      obtain ⟨w, hww, hwe⟩ := List.mem_flatMap.1 hmem
+      rcases hwi w hww with h | h
+      · rw [h, s1_shape hs] at hwe; simp [encOf] at hwe
+      · rw [h] at hwe; simp [encOf] at hwe
     cases hr1 : respSigma1 cfg.fabricsR m cfg.ephR cfg.rndR cfg.ridR cfg.sidR with
     | sent ctx =>
       have hstep : stepResp cfg r m = (.sent2 ctx, [ctx.s2]) := by rw [hr]; simp [stepResp, hres, hr1]
@@ -643,7 +694,8 @@ theorem clean_resp {A : Attacker} {cfg : HsCfg} (hs : FullSetting A cfg) {i : IS
       by_cases hm : m = cfg.init0.s1
       · left
         have hcx : hCtx cfg = some ctx := hCtx_some.2 (hm ▸ hr1)
-        refine ⟨?_, hc.i_ok, Or.inr (Or.inl ⟨ctx, hcx, rfl⟩), ?_, ?_⟩
+        refine ⟨?_, hc.i_ok, Or.inr (Or.inl ⟨ctx, hcx, rfl⟩), ?_, ?_,
+          st_ok_append hc.st_ok (by rw [hs2]; simp)⟩
         · intro w hw
           rcases List.mem_append.1 hw with h | h
           · exact hc.wire_ok w h
@@ -679,7 +731,7 @@ theorem clean_resp {A : Attacker} {cfg : HsCfg} (hs : FullSetting A cfg) {i : IS
         rw [hr]; simp [stepResp, hres, hr1]
       rw [hstep]
       left
-      refine ⟨?_, hc.i_ok, Or.inr (Or.inr (Or.inl rfl)), ?_, ?_⟩
+      refine ⟨?_, hc.i_ok, Or.inr (Or.inr (Or.inl rfl)), ?_, ?_, st_ok_append hc.st_ok (by simp)⟩
       · intro w hw
         rcases List.mem_append.1 hw with h | h
         · exact hc.wire_ok w h
@@ -707,7 +759,7 @@ theorem clean_resp {A : Attacker} {cfg : HsCfg} (hs : FullSetting A cfg) {i : IS
       obtain ⟨_, _, _, h30, _⟩ := c30_shape hs hc3
       obtain ⟨e, he⟩ := s3_shape h30
       left
-      refine ⟨?_, hc.i_ok, Or.inr (Or.inr (Or.inr (by rw [hres]))), ?_, ?_⟩
+      refine ⟨?_, hc.i_ok, Or.inr (Or.inr (Or.inr (by rw [hres]))), ?_, ?_, fun _ => by rw [hres]; rfl⟩
       · intro w hw
         rcases List.mem_append.1 hw with h | h
         · exact hc.wire_ok w h
@@ -723,7 +775,7 @@ theorem clean_resp {A : Attacker} {cfg : HsCfg} (hs : FullSetting A cfg) {i : IS
         rw [hr]; simp [stepResp, hr3]
       rw [hstep]
       left
-      refine ⟨?_, hc.i_ok, Or.inr (Or.inr (Or.inl rfl)), ?_, ?_⟩
+      refine ⟨?_, hc.i_ok, Or.inr (Or.inr (Or.inl rfl)), ?_, ?_, st_ok_append hc.st_ok (by simp)⟩
       · intro w hw
         rcases List.mem_append.1 hw with h | h
         · exact hc.wire_ok w h
@@ -782,7 +834,8 @@ theorem clean_init {A : Attacker} {cfg : HsCfg} (hs : FullSetting A cfg) {i : IS
       · left
         have hc3 : hC3 cfg = some c3 := by
           unfold hC3; rw [hcx]; simp only [Option.bind_some]; rw [← hmm]; exact h2
-        refine ⟨?_, Or.inr (Or.inl ⟨c3, hc3, rfl⟩), hc.r_ok, ?_, ?_⟩
+        refine ⟨?_, Or.inr (Or.inl ⟨c3, hc3, rfl⟩), hc.r_ok, ?_, ?_,
+          st_ok_append hc.st_ok (by rw [he3]; simp)⟩
         · intro w hw
           rcases List.mem_append.1 hw with h | h
           · exact hc.wire_ok w h
@@ -822,7 +875,7 @@ theorem clean_init {A : Attacker} {cfg : HsCfg} (hs : FullSetting A cfg) {i : IS
         rw [hi]; simp [stepInit, hrejr, h2]
       rw [hstep]
       left
-      refine ⟨?_, Or.inr (Or.inr (Or.inl rfl)), hc.r_ok, ?_, ?_⟩
+      refine ⟨?_, Or.inr (Or.inr (Or.inl rfl)), hc.r_ok, ?_, ?_, st_ok_append hc.st_ok (by simp)⟩
       · intro w hw
         rcases List.mem_append.1 hw with h | h
         · exact hc.wire_ok w h
@@ -842,7 +895,7 @@ theorem clean_init {A : Attacker} {cfg : HsCfg} (hs : FullSetting A cfg) {i : IS
     left
     have hfin : initFinish c3 (.status true) = hResI cfg := by
       unfold hResI; rw [hc3]; rfl
-    refine ⟨hc.wire_ok, ?_, hc.r_ok, ?_, ?_⟩
+    refine ⟨hc.wire_ok, ?_, hc.r_ok, ?_, ?_, hc.st_ok⟩
     · rcases initFinish_cases c3 m with h | h
       · rw [h]; exact Or.inr (Or.inr (Or.inl rfl))
       · rw [h, hfin]; exact Or.inr (Or.inr (Or.inr rfl))
@@ -972,11 +1025,98 @@ theorem invFull_step {A : Attacker} {cfg : HsCfg} (hs : FullSetting A cfg) (n : 
           · exact Or.inr ⟨rfl, Or.inr (devS2_init hs h m hw)⟩
     · intro _ hk1; rw [hk] at hk1; cases hk1
 
-/-- each end: no session, or the session (and cache record) of the untouched run -/
-def OutcomeFull (cfg : HsCfg) (n : Net) : Prop :=
-  (n.i.result = none ∨ n.i.result = hResI cfg) ∧ (n.r.result = none ∨ n.r.result = hResR cfg)
+/-! ### The untouched run, computed by the run function -/
 
-theorem invFull_outcome {cfg : HsCfg} {n : Net} {k : Nat} (h : InvFull cfg n k) : OutcomeFull cfg n := by
+/-- what each end holds after the UNTOUCHED run: the model's run function on the in-order schedule
+`honestOps` (every message delivered once, in order) -/
+def refI (cfg : HsCfg) : Result := ((Net.start cfg).run cfg (honestOps cfg)).i.result
+def refR (cfg : HsCfg) : Result := ((Net.start cfg).run cfg (honestOps cfg)).r.result
+
+theorem initSigma2Resume_noRec (c : InitCtx) (m : Msg) (h : c.cached = none) :
+    initSigma2Resume c m = none := by
+  unfold initSigma2Resume
+  rw [h]
+  split <;> simp_all
+
+/-- **the untouched run, in general** (every configuration of `FullSetting`, not a sample): the
+responder ends with `hResR` — what it makes of the initiator's own Sigma3 —, and the initiator with
+`hResI` exactly when the responder completes (it then sends the success report), else with nothing
+(the responder's failure report, or its own refusal of Sigma2, ends the attempt) -/
+theorem honest_run_full {A : Attacker} {cfg : HsCfg} (hs : FullSetting A cfg) :
+    refR cfg = hResR cfg ∧ refI cfg = if (hResR cfg).isSome then hResI cfg else none := by
+  have hs1 := s1_shape hs
+  have hnr : ∀ m, initSigma2Resume cfg.init0 m = none := fun m => initSigma2Resume_noRec _ m hs.hfull
+  have hrr : respResumeStep cfg.fabricsR cfg.cacheR cfg.init0.s1 cfg.ridR cfg.sidR = .fallThrough := by
+    rw [hs1]; rfl
+  have hne : ∀ b, Msg.status b ≠ cfg.init0.s1 := by intro b; rw [hs1]; simp
+  unfold refR refI
+  cases hc : hCtx cfg with
+  | none =>
+    have hr1 : respSigma1 cfg.fabricsR cfg.init0.s1 cfg.ephR cfg.rndR cfg.ridR cfg.sidR = .refused := by
+      cases h : respSigma1 cfg.fabricsR cfg.init0.s1 cfg.ephR cfg.rndR cfg.ridR cfg.sidR with
+      | refused => rfl
+      | sent ctx => rw [hCtx_some.2 h] at hc; cases hc
+    have hR : hResR cfg = none := by unfold hResR; rw [hc]
+    rw [hR]
+    simp [honestOps, Net.run, Net.step, Net.start, stepResp, stepInit, hrr, hr1, hnr, initSigma2,
+      IState.result, RState.result, hne]
+  | some ctx =>
+    have hr1 := hCtx_some.1 hc
+    obtain ⟨a, b, c, d, hs2⟩ := sent_s2_shape hr1
+    have hne2 : ∀ b, Msg.status b ≠ ctx.s2 := by intro b; rw [hs2]; simp
+    cases hc3 : hC3 cfg with
+    | none =>
+      have h2 : initSigma2 cfg.t cfg.init0 ctx.s2 = none := by
+        unfold hC3 at hc3; rw [hc] at hc3; simpa using hc3
+      have hR : hResR cfg = none := by unfold hResR; rw [hc, hc3]
+      rw [hR]
+      simp [honestOps, Net.run, Net.step, Net.start, stepResp, stepInit, hrr, hr1, hnr, h2,
+        IState.result, RState.result, hne, hne2, respSigma3]
+    | some c3 =>
+      have h2 : initSigma2 cfg.t cfg.init0 ctx.s2 = some c3 := by
+        unfold hC3 at hc3; rw [hc] at hc3; simpa using hc3
+      obtain ⟨e, hs3⟩ := s3_shape h2
+      have hne3 : c3.s3 ≠ cfg.init0.s1 := by rw [hs3, hs1]; simp
+      have hR : hResR cfg = respSigma3 cfg.t ctx c3.s3 := by unfold hResR; rw [hc, hc3]
+      have hI : hResI cfg = initFinish c3 (.status true) := by unfold hResI; rw [hc3]; rfl
+      rw [hR, hI]
+      cases h3 : respSigma3 cfg.t ctx c3.s3 with
+      | none =>
+        simp [honestOps, Net.run, Net.step, Net.start, stepResp, stepInit, hrr, hr1, hnr, h2, h3,
+          IState.result, RState.result, hne2, hne3, initFinish]
+      | some p =>
+        simp [honestOps, Net.run, Net.step, Net.start, stepResp, stepInit, hrr, hr1, hnr, h2, h3,
+          IState.result, RState.result, hne2, hne3]
+
+/-- **The half-open initiator session.**  The final status report of CASE travels on the
+unsecured exchange and is not authenticated (`CaseInitiator::perform` step 8 reads the general /
+protocol code and nothing else).  An attacker can therefore spend its one message on a forged
+SUCCESS report.  If the untouched run succeeds, this gives the initiator nothing new (`hResI` is then
+its session of the untouched run).  If in the untouched run the responder REFUSES the initiator's
+Sigma3 (the initiator's own chain is not valid for the responder, …), the untouched run leaves both
+ends without a session, whereas the forged report leaves the initiator with `hResI`: the session it
+computes from the responder's own, authenticated Sigma2 — bound to the responder's certificate, keyed
+from the ECDH secret of the two honest ephemeral keys (`half_open_authenticated`,
+`net_full_session_keys_secret`: no attacker can derive these keys) — which the responder does not
+hold.  It is unusable (nobody answers under these keys), not mis-bound; the clause "either no session
+or the same session as the untouched run" is nevertheless FALSE for it, so it is an explicit third
+case of the outcome.  `HalfOpen cfg res`: `res` is such a session. -/
+def HalfOpen (cfg : HsCfg) (res : Result) : Prop :=
+  refR cfg = none ∧ refI cfg = none ∧ res = hResI cfg ∧ res.isSome = true
+
+/-- each end: no session, or the session (and cache record) of the untouched run — or, for the
+initiator only, the half-open session -/
+def OutcomeFull (cfg : HsCfg) (n : Net) : Prop :=
+  (n.i.result = none ∨ n.i.result = refI cfg ∨ HalfOpen cfg n.i.result) ∧
+  (n.r.result = none ∨ n.r.result = refR cfg)
+
+/-- the outcome as the property text has it: no session, or the session of the untouched run -/
+def OutcomeStrict (cfg : HsCfg) (n : Net) : Prop :=
+  (n.i.result = none ∨ n.i.result = refI cfg) ∧ (n.r.result = none ∨ n.r.result = refR cfg)
+
+/-- what the invariant gives, against the defined terms `hResI` / `hResR` -/
+theorem invFull_outcome0 {cfg : HsCfg} {n : Net} {k : Nat} (h : InvFull cfg n k) :
+    (n.i.result = none ∨ n.i.result = hResI cfg) ∧ (n.r.result = none ∨ n.r.result = hResR cfg) := by
   rcases h with hc | ⟨_, hd | hd⟩
   · constructor
     · rcases hc.i_ok with h | ⟨_, _, h⟩ | h | h <;> rw [h] <;> simp [IState.result]
@@ -990,12 +1130,31 @@ theorem invFull_outcome {cfg : HsCfg} {n : Net} {k : Nat} (h : InvFull cfg n k) 
     · rcases hi with h | h <;> rw [h] <;> simp [IState.result]
     · rcases hr with h | h <;> rw [h] <;> simp [RState.result]
 
+theorem invFull_outcome {A : Attacker} {cfg : HsCfg} (hs : FullSetting A cfg) {n : Net} {k : Nat}
+    (h : InvFull cfg n k) : OutcomeFull cfg n := by
+  obtain ⟨h1, h2⟩ := invFull_outcome0 h
+  obtain ⟨eR, eI⟩ := honest_run_full hs
+  refine ⟨?_, by rw [eR]; exact h2⟩
+  rcases h1 with h1 | h1
+  · exact Or.inl h1
+  · cases hR : hResR cfg with
+    | some p =>
+      right; left
+      rw [eI, hR]; exact h1
+    | none =>
+      cases hI : hResI cfg with
+      | none => left; rw [h1, hI]
+      | some q =>
+        right; right
+        refine ⟨by rw [eR, hR], by rw [eI, hR]; rfl, h1, by rw [h1, hI]; rfl⟩
+
+/-- the invariant survives every admissible schedule -/
 theorem invFull_run {A : Attacker} {cfg : HsCfg} (hs : FullSetting A cfg) :
     ∀ (n : Net) (k : Nat) (ops : List NetOp), Sched A cfg n k ops → k ≤ 1 → InvFull cfg n k →
-      OutcomeFull cfg (n.run cfg ops) := by
+      ∃ k', InvFull cfg (n.run cfg ops) k' := by
   intro n k ops hsched
   induction hsched with
-  | nil n k => intro _ hinv; exact invFull_outcome hinv
+  | nil n k => intro _ hinv; exact ⟨k, hinv⟩
   | relay n k op ops hw _ ih =>
     intro hk hinv
     exact ih hk ((invFull_step hs n k op hinv).1 hw)
@@ -1007,7 +1166,11 @@ theorem invFull_run {A : Attacker} {cfg : HsCfg} (hs : FullSetting A cfg) :
 
 theorem clean_start {A : Attacker} {cfg : HsCfg} (hs : FullSetting A cfg) :
     Clean cfg (Net.start cfg).i (Net.start cfg).r (Net.start cfg).wire := by
-  refine ⟨?_, Or.inl rfl, Or.inl rfl, ?_, ?_⟩
+  refine ⟨?_, Or.inl rfl, Or.inl rfl, ?_, ?_, ?_⟩
+  rotate_right
+  · intro he
+    simp only [Net.start, List.mem_cons, List.not_mem_nil, or_false] at he
+    rw [s1_shape hs] at he; cases he
   · intro w hw
     simp only [Net.start, List.mem_cons, List.not_mem_nil, or_false] at hw
     exact mem_cleanMsgs.2 (Or.inl hw)
@@ -1025,19 +1188,91 @@ theorem clean_start {A : Attacker} {cfg : HsCfg} (hs : FullSetting A cfg) :
     simp only [Net.start, List.mem_cons, List.not_mem_nil, or_false] at hw
     exact Or.inl hw
 
+theorem net_full_inv {A : Attacker} {cfg : HsCfg} (hs : FullSetting A cfg)
+    (ops : List NetOp) (hsched : Sched A cfg (Net.start cfg) 1 ops) :
+    ∃ k', InvFull cfg ((Net.start cfg).run cfg ops) k' :=
+  invFull_run hs _ 1 ops hsched (Nat.le_refl 1) (Or.inl (clean_start hs))
+
 /-- **C01, network form (full handshake)**.  Against the Dolev-Yao attacker `A` — who sees the
 wire, knows the IPK, has its own ephemeral secrets, signing keys `A.S` and certificates `A.C` —
 for EVERY schedule of the handshake packets (any loss, duplication, delay, reordering, reflection
-or replay of what the two honest ends have sent) in which the attacker additionally delivers, at
-any point and to either end, at most ONE message of its own making (any message it can derive at
-that moment: this covers every single-field / single-bit / message-level mutation, truncation,
-substitution of Sigma1, Sigma2, Sigma3 and the final status report),
-each end finishes with no session or with exactly the session (identity, keys, session ids) and
-cache record of the untouched run. -/
+or replay of what the two honest ends have sent IN THIS EXCHANGE) in which the attacker additionally
+delivers, at any point and to either end, at most ONE message of its own making (any message it can
+derive at that moment from this exchange's wire and the IPK: this covers every single-field /
+single-bit / message-level mutation, truncation, substitution of Sigma1, Sigma2, Sigma3 and the
+final status report):
+* the responder finishes with no session or with exactly the session (identity, keys, session ids)
+  and cache record it has after the untouched run (`refR`: `Net.run` on `honestOps`);
+* the initiator finishes with no session, or with exactly its session of the untouched run (`refI`),
+  or — only if the untouched run fails at the responder — with the half-open session `HalfOpen`
+  (see there; `net_single_mutation_full_strict`: impossible when the untouched run succeeds;
+  `net_no_forgery_full`: impossible without an attacker-made message). -/
 theorem net_single_mutation_full {A : Attacker} {cfg : HsCfg} (hs : FullSetting A cfg)
     (ops : List NetOp) (hsched : Sched A cfg (Net.start cfg) 1 ops) :
-    OutcomeFull cfg ((Net.start cfg).run cfg ops) :=
-  invFull_run hs _ 1 ops hsched (Nat.le_refl 1) (Or.inl (clean_start hs))
+    OutcomeFull cfg ((Net.start cfg).run cfg ops) := by
+  obtain ⟨k', h⟩ := net_full_inv hs ops hsched
+  exact invFull_outcome hs h
+
+/-- **the property's tamper clause as stated**, for every configuration in which the untouched run
+succeeds (the responder ends with a session): each end ends with no session or exactly the session
+of the untouched run -/
+theorem net_single_mutation_full_strict {A : Attacker} {cfg : HsCfg} (hs : FullSetting A cfg)
+    (hok : (refR cfg).isSome = true)
+    (ops : List NetOp) (hsched : Sched A cfg (Net.start cfg) 1 ops) :
+    OutcomeStrict cfg ((Net.start cfg).run cfg ops) := by
+  obtain ⟨h1, h2⟩ := net_single_mutation_full hs ops hsched
+  refine ⟨?_, h2⟩
+  rcases h1 with h | h | h
+  · exact Or.inl h
+  · exact Or.inr h
+  · rw [h.1] at hok; cases hok
+
+/-- the half-open session is bound to an authenticated peer: it is what the initiator computes
+from the Sigma2 that the honest responder sent in answer to the initiator's own Sigma1 — chain valid
+for the initiator's fabric naming the addressed node id, TBS signature under the certified key over
+both ephemeral keys of THIS handshake — and its shared secret is the ECDH of the two honest
+ephemeral keys -/
+theorem half_open_authenticated {A : Attacker} {cfg : HsCfg} (hs : FullSetting A cfg) (s : Session)
+    (r : ResRec) (h : HalfOpen cfg (some (s, r))) :
+    ∃ ctx c3, hCtx cfg = some ctx ∧ initSigma2 cfg.t cfg.init0 ctx.s2 = some c3 ∧
+      initFinish c3 (.status true) = some (s, r) ∧
+      s.fabIdx = cfg.fI.idx ∧ s.peerNode = cfg.peer ∧
+      CaseValid cfg.t cfg.fI.view ctx.fabric.noc ctx.fabric.icac ∧
+      nodeIdOf ctx.fabric.noc.subject = some cfg.peer ∧ s.cats = catsOf ctx.fabric.noc.subject ∧
+      s.sharedSecret = .shared (min cfg.ephR cfg.ephI) (max cfg.ephR cfg.ephI) ∧
+      respSigma3 cfg.t ctx c3.s3 = none := by
+  obtain ⟨hR, _, hres, _⟩ := h
+  cases hc3 : hC3 cfg with
+  | none => unfold hResI at hres; rw [hc3] at hres; cases hres
+  | some c3 =>
+    obtain ⟨ctx, _, hcx, h2, _⟩ := c30_shape hs hc3
+    have hfin : initFinish c3 (.status true) = some (s, r) := by
+      unfold hResI at hres; rw [hc3] at hres; exact hres.symm
+    obtain ⟨hsec, _, _, _, hs2⟩ := ctx0_shape hs hcx
+    obtain ⟨_, hsec3, _, _⟩ := initiator_accepts_honest_sigma2 _ _ _ _ _ _ ctx _ _ c3 (hCtx_some.1 hcx) h2
+    obtain ⟨rRnd, rSid, rEph, noc, icac, sig, rid, hm, hv, hn, _, hcc, _, hcats, _⟩ :=
+      initiator_sigma2_implies_auth _ _ _ c3 h2
+    rw [hs2] at hm
+    simp only [Msg.sigma2.injEq, Term.enc.injEq, tbe2, Term.pair.injEq, Term.cert.injEq] at hm
+    obtain ⟨_, _, _, _, _, hnoc, hic, _⟩ := hm
+    have hicac : ctx.fabric.icac = icac := by
+      cases h1 : ctx.fabric.icac <;> cases h2' : icac <;> simp [h1, h2', optCert] at hic
+      · rfl
+      · rw [hic]
+    have hR' : respSigma3 cfg.t ctx c3.s3 = none := by
+      rw [(honest_run_full hs).1] at hR
+      unfold hResR at hR; rw [hcx, hc3] at hR; exact hR
+    unfold initFinish at hfin
+    simp only [Option.some.injEq, Prod.mk.injEq] at hfin
+    obtain ⟨hs', _⟩ := hfin
+    refine ⟨ctx, c3, hcx, h2, ?_, ?_, ?_, ?_, ?_, ?_, ?_, hR'⟩
+    · unfold initFinish; simp only [Option.some.injEq, Prod.mk.injEq]; exact ⟨hs', by assumption⟩
+    · rw [← hs', hcc]; rfl
+    · rw [← hs', hcc]; rfl
+    · rw [hnoc, hicac]; exact hv
+    · rw [hnoc]; exact hn
+    · rw [← hs', hnoc]; exact hcats
+    · rw [← hs']; show c3.secret = _; rw [hsec3, hsec]
 
 /-- … and whenever both ends hold a session, they hold the same directional keys (and the same
 shared secret; the responder's is bound to the initiator's own NOC) -/
@@ -1047,7 +1282,8 @@ theorem net_full_keys_agree {A : Attacker} {cfg : HsCfg} (hs : FullSetting A cfg
     (hR : ((Net.start cfg).run cfg ops).r.result = some (sR, rR)) :
     sR.i2r = sI.i2r ∧ sR.r2i = sI.r2i ∧ sR.sharedSecret = sI.sharedSecret ∧
     nodeIdOf cfg.fI.noc.subject = some sR.peerNode ∧ sR.cats = catsOf cfg.fI.noc.subject := by
-  obtain ⟨h1, h2⟩ := net_single_mutation_full hs ops hsched
+  obtain ⟨k', hinv⟩ := net_full_inv hs ops hsched
+  obtain ⟨h1, h2⟩ := invFull_outcome0 hinv
   rw [hI] at h1; rw [hR] at h2
   have hi : hResI cfg = some (sI, rI) := by rcases h1 with h | h; cases h; exact h.symm
   have hr : hResR cfg = some (sR, rR) := by rcases h2 with h | h; cases h; exact h.symm
@@ -1063,6 +1299,173 @@ theorem net_full_keys_agree {A : Attacker} {cfg : HsCfg} (hs : FullSetting A cfg
     simp only at hr
     have := keys_agree cfg.t cfg.t ctx cfg.init0 ctx.s2 c3 sR sI rR rI h30 hr hi
     exact ⟨this.2.2.1, this.2.2.2.1, this.2.2.2.2.1, this.2.2.2.2.2.1, this.2.2.2.2.2.2⟩
+
+/-! ### Without an attacker-made message the clause holds as stated -/
+
+/-- "no half-open session": if the initiator holds `hResI`, the responder of the untouched run completes -/
+def NoHalf (cfg : HsCfg) (i : IState) : Prop :=
+  i = .done (hResI cfg) → (hResI cfg).isSome = true → (hResR cfg).isSome = true
+
+theorem noHalf_step {A : Attacker} {cfg : HsCfg} (hs : FullSetting A cfg) (n : Net) (op : NetOp)
+    (hc : Clean cfg n.i n.r n.wire) (hn : NoHalf cfg n.i) (hw : op.msg ∈ n.wire) :
+    NoHalf cfg (n.step cfg op).i := by
+  cases op with
+  | toResp m =>
+    rcases step_toResp cfg n m with h | ⟨h1, _, _⟩
+    · rw [h]; exact hn
+    · rw [h1]; exact hn
+  | toInit m =>
+    rcases step_toInit cfg n m with h | ⟨_, h2, _⟩
+    · rw [h]; exact hn
+    · rw [h2]
+      intro heq hsome
+      have hnone : hResI cfg ≠ none := by intro h; rw [h] at hsome; cases hsome
+      rcases hc.i_ok with hi | ⟨c3, hc3, hi⟩ | hi | hi
+      · rw [hi] at heq
+        simp only [stepInit, initSigma2Resume_noRec _ m hs.hfull] at heq
+        cases h2' : initSigma2 cfg.t cfg.init0 m with
+        | some c3 => rw [h2'] at heq; cases heq
+        | none =>
+          rw [h2'] at heq
+          simp only [IState.done.injEq] at heq
+          exact absurd heq.symm hnone
+      · rw [hi] at heq
+        simp only [stepInit, IState.done.injEq] at heq
+        by_cases hm : m = .status true
+        · subst hm; exact hc.st_ok hw
+        · rw [tamper_status_no_session c3 m hm] at heq
+          exact absurd heq.symm hnone
+      · rw [hi] at heq
+        simp only [stepInit, IState.done.injEq] at heq
+        exact absurd heq.symm hnone
+      · exact hn hi hsome
+
+theorem relay_only_full {A : Attacker} {cfg : HsCfg} (hs : FullSetting A cfg) :
+    ∀ (n : Net) (k : Nat) (ops : List NetOp), Sched A cfg n k ops → k = 0 →
+      Clean cfg n.i n.r n.wire → NoHalf cfg n.i →
+      Clean cfg (n.run cfg ops).i (n.run cfg ops).r (n.run cfg ops).wire ∧ NoHalf cfg (n.run cfg ops).i := by
+  intro n k ops hsched
+  induction hsched with
+  | nil n k => intro _ hc hn; exact ⟨hc, hn⟩
+  | relay n k op ops hw _ ih =>
+    intro hk hc hn
+    have hinv : InvFull cfg (n.step cfg op) 1 := (invFull_step hs n 1 op (Or.inl hc)).1 hw
+    have hc' : Clean cfg (n.step cfg op).i (n.step cfg op).r (n.step cfg op).wire := by
+      rcases hinv with h | h
+      · exact h
+      · exact absurd h.1 (by decide)
+    exact ih hk hc' (noHalf_step hs n op hc hn hw)
+  | forge n k op ops _ _ _ => intro hk; omega
+
+/-- **without an attacker-made message** (any loss, duplication, delay, reordering, reflection or
+replay of the exchange's own messages) the tamper clause holds as stated, whether or not the
+untouched run succeeds -/
+theorem net_no_forgery_full {A : Attacker} {cfg : HsCfg} (hs : FullSetting A cfg)
+    (ops : List NetOp) (hsched : Sched A cfg (Net.start cfg) 0 ops) :
+    OutcomeStrict cfg ((Net.start cfg).run cfg ops) := by
+  have hstart : NoHalf cfg (Net.start cfg).i := by intro h; cases h
+  obtain ⟨hc, hn⟩ := relay_only_full hs _ 0 ops hsched rfl (clean_start hs) hstart
+  obtain ⟨h1, h2⟩ := invFull_outcome0 (k := 0) (Or.inl hc)
+  obtain ⟨eR, eI⟩ := honest_run_full hs
+  refine ⟨?_, by rw [eR]; exact h2⟩
+  rcases hc.i_ok with h | ⟨_, _, h⟩ | h | h
+  · left; rw [h]; rfl
+  · left; rw [h]; rfl
+  · left; rw [h]; rfl
+  · cases hI : hResI cfg with
+    | none => left; rw [h, hI]; rfl
+    | some q =>
+      right
+      have := hn h (by rw [hI]; rfl)
+      rw [eI, this, h]; rfl
+
+/-! ### Secrecy of the session keys -/
+
+/-- everything the attacker derives from the wire of an undeviated state satisfies `G` -/
+theorem derivable_wire_G {A : Attacker} {cfg : HsCfg} (hs : FullSetting A cfg) {i : IState} {r : RState}
+    {wire : List Msg} (hc : Clean cfg i r wire) (t : Term)
+    (hD : Derivable A.H A.S A.C (wire.map Msg.toTerm ++ [cfg.fI.ipk]) t) :
+    G A.H A.S A.C (wireE wire) t := by
+  apply derivable_G A.H A.S A.C (wireE wire) _ _ _ hD
+  intro t ht
+  simp only [List.mem_append, List.mem_map, List.mem_cons, List.not_mem_nil, or_false] at ht
+  rcases ht with ⟨w, hw1, rfl⟩ | rfl
+  · exact clean_wire_G hs wire hc.wire_ok w hw1
+  · rw [hs.hipk]; trivial
+
+theorem not_G_sec {H S C E} {x y : Nat} (hx : x ∈ H) (hy : y ∈ H) : ¬ G H S C E (.shared x y) := by
+  intro h; simp only [G] at h; exact h ⟨hx, hy⟩
+
+/-- **the keys of every session either end holds are secret**: for every schedule with at most one
+attacker-made message, whatever session an end finishes with — the untouched run's or the half-open
+one —, the attacker cannot derive its directional keys or its shared secret from everything sent in
+the exchange and the IPK -/
+theorem net_full_session_keys_secret {A : Attacker} {cfg : HsCfg} (hs : FullSetting A cfg)
+    (ops : List NetOp) (hsched : Sched A cfg (Net.start cfg) 1 ops) (s : Session) (r : ResRec)
+    (h : ((Net.start cfg).run cfg ops).i.result = some (s, r) ∨
+      ((Net.start cfg).run cfg ops).r.result = some (s, r))
+    (x : Term) (hx : x = s.i2r ∨ x = s.r2i ∨ x = s.sharedSecret) :
+    ¬ Derivable A.H A.S A.C
+      (((Net.start cfg).run cfg ops).wire.map Msg.toTerm ++ [cfg.fI.ipk]) x := by
+  obtain ⟨k', hinv⟩ := net_full_inv hs ops hsched
+  obtain ⟨h1, h2⟩ := invFull_outcome0 hinv
+  -- a session exists, so the state is undeviated
+  have hc : Clean cfg ((Net.start cfg).run cfg ops).i ((Net.start cfg).run cfg ops).r
+      ((Net.start cfg).run cfg ops).wire := by
+    rcases hinv with hc | ⟨_, hd | hd⟩
+    · exact hc
+    · obtain ⟨_, _, _, _, hr, hi, _⟩ := hd
+      exfalso
+      rcases h with h | h
+      · rcases hi with e | e <;> rw [e] at h <;> cases h
+      · rcases hr with e | e <;> rw [e] at h <;> cases h
+    · obtain ⟨_, _, _, _, _, _, hi, hr, _⟩ := hd
+      exfalso
+      rcases h with h | h
+      · rcases hi with e | e <;> rw [e] at h <;> cases h
+      · rcases hr with e | e <;> rw [e] at h <;> cases h
+  intro hD
+  have hg := derivable_wire_G hs hc x hD
+  have hsecH := isSec_ctx0 hs
+  -- the session is `hResI` or `hResR`: keyed from the honest ECDH secret
+  have hkeys : ∃ a b c d e f, s.i2r = .part a (.kdf (.shared (min cfg.ephR cfg.ephI) (max cfg.ephR cfg.ephI)) b c) ∧
+      s.r2i = .part d (.kdf (.shared (min cfg.ephR cfg.ephI) (max cfg.ephR cfg.ephI)) e f) ∧
+      s.sharedSecret = .shared (min cfg.ephR cfg.ephI) (max cfg.ephR cfg.ephI) := by
+    rcases h with h | h
+    · rw [h] at h1
+      have hi : hResI cfg = some (s, r) := by rcases h1 with e | e; cases e; exact e.symm
+      cases hc3 : hC3 cfg with
+      | none => unfold hResI at hi; rw [hc3] at hi; cases hi
+      | some c3 =>
+        obtain ⟨ctx, _, hcx, h30, _⟩ := c30_shape hs hc3
+        obtain ⟨hsec, _⟩ := ctx0_shape hs hcx
+        obtain ⟨_, hsec3, _, _⟩ := initiator_accepts_honest_sigma2 _ _ _ _ _ _ ctx _ _ c3 (hCtx_some.1 hcx) h30
+        unfold hResI at hi; rw [hc3] at hi
+        simp only [Option.bind_some, initFinish, Option.some.injEq, Prod.mk.injEq] at hi
+        obtain ⟨hs', _⟩ := hi
+        rw [← hs']
+        exact ⟨_, _, _, _, _, _, by rw [hsec3, hsec]; rfl, by rw [hsec3, hsec]; rfl, by rw [hsec3, hsec]⟩
+    · rw [h] at h2
+      have hr : hResR cfg = some (s, r) := by rcases h2 with e | e; cases e; exact e.symm
+      unfold hResR at hr
+      cases hcx : hCtx cfg with
+      | none => rw [hcx] at hr; cases hr
+      | some ctx =>
+        cases hc3 : hC3 cfg with
+        | none => rw [hcx, hc3] at hr; cases hr
+        | some c3 =>
+          rw [hcx, hc3] at hr
+          simp only at hr
+          obtain ⟨hsec, _⟩ := ctx0_shape hs hcx
+          obtain ⟨_, _, _, _, _, _, _, _, _, _, hi2r, hr2i, hss, _⟩ :=
+            responder_session_implies_auth _ _ _ _ _ hr
+          rw [hi2r, hr2i, hss]
+          exact ⟨_, _, _, _, _, _, by rw [hsec]; rfl, by rw [hsec]; rfl, hsec⟩
+  obtain ⟨a, b, c, d, e, f, e1, e2, e3⟩ := hkeys
+  rcases hx with hx | hx | hx
+  · rw [hx, e1] at hg; simp only [G] at hg; exact hg.1 hsecH
+  · rw [hx, e2] at hg; simp only [G] at hg; exact hg.1 hsecH
+  · rw [hx, e3] at hg; simp only [G] at hg; exact hg hsecH
 
 /-! ## Resumed handshake -/
 
@@ -1100,8 +1503,9 @@ structure ResumeSetting (A : Attacker) (cfg : HsCfg) where
   hx : x ∈ A.H
   hy : y ∈ A.H
   hcacheR : ∀ r ∈ cfg.cacheR, ∃ x y, r.secret = .shared x y ∧ x ∈ A.H ∧ y ∈ A.H
-  hcert : ∀ c ic, A.C c → CaseValid cfg.t cfg.fI.view c ic → nodeIdOf c.subject = some cfg.peer →
-    ¬ A.S c.pubKey
+  /-- as in `FullSetting` (presentable chains only) -/
+  hcert : ∀ c ic, A.C c → (∀ i ∈ ic, A.C i) → CaseValid cfg.t cfg.fI.view c ic →
+    nodeIdOf c.subject = some cfg.peer → ¬ A.S c.pubKey
   /-- the responder resumes in the untouched run -/
   cx0 : RespResumeCtx
   hcx0 : respResume cfg.fabricsR cfg.cacheR cfg.init0.s1 cfg.ridR cfg.sidR = some cx0
@@ -1144,7 +1548,8 @@ theorem respResume_modSid (fabrics : List Fabric) (cache : List ResRec) (r s d e
     ∃ cx', respResume fabrics cache (.sigma1 r s' d' e' (some (rid, mic))) nr sid = some cx' ∧
       cx'.s2r = cx.s2r ∧ cx'.record = cx.record ∧ cx'.newRid = cx.newRid ∧
       modSid cx'.session = modSid cx.session := by
-  unfold respResume at h ⊢
+  rw [respResume_eq] at h ⊢
+  unfold respResumeSucc at h ⊢
   simp only at h ⊢
   split at h
   · cases h
@@ -1212,9 +1617,41 @@ theorem cleanRes_resp {A : Attacker} {cfg : HsCfg} (hs : ResumeSetting A cfg) {i
       (m ∉ wire ∧ DevS1 cfg i (stepResp cfg r m).1 (wire ++ (stepResp cfg r m).2)) := by
   rcases hc.r_ok with hr | ⟨cx, hcx, hr⟩ | hr | ⟨cx, hcx, hr⟩
   · obtain ⟨hwi, hii⟩ := hc.idle hr
+    -- the responder cannot abort after `Sigma2_Resume`: the only `Resume1MIC` it accepts here is the
+    -- initiator's, which selects the record of the untouched run, whose fabric is in the table
+    have hnab : ∀ s2r, respResumeStep cfg.fabricsR cfg.cacheR m cfg.ridR cfg.sidR ≠ .aborted s2r := by
+      intro s2r hab
+      have hne : respResumeStep cfg.fabricsR cfg.cacheR m cfg.ridR cfg.sidR ≠ .fallThrough := by
+        rw [hab]; intro h; cases h
+      obtain ⟨rec, iRnd, iSid, dest, iEph, hfind, hm, hmem, hcase⟩ :=
+        respResumeStep_G _ _ _ _ _ hs.hcacheR hne hg
+      have hfn : cfg.fabricsR.find? (fun f => f.idx == rec.fabIdx) = none := by
+        rcases hcase with ⟨fb, cx, _, hs'⟩ | ⟨h, _⟩
+        · rw [hab] at hs'; cases hs'
+        · exact h
+      obtain ⟨w, hww, hwe⟩ := List.mem_flatMap.1 hmem
+      have hmic : Term.mic (resumeKey rec.secret iRnd rec.rid infoS1RK) nonceR1 = mic1 hs := by
+        rcases hwi w hww with h | h
+        · rw [h, s1r_shape hs] at hwe; simpa [encOf] using hwe
+        · rw [h] at hwe; simp [encOf] at hwe
+      simp only [mic1, Term.mic.injEq, resumeKey, Term.kdf.injEq, Term.pair.injEq] at hmic
+      obtain ⟨⟨_, ⟨_, hrid⟩, _⟩, _⟩ := hmic
+      -- the untouched Sigma1 selects a record with the same id, whose fabric exists
+      have h0 : respResumeStep cfg.fabricsR cfg.cacheR cfg.init0.s1 cfg.ridR cfg.sidR ≠ .fallThrough := by
+        rw [(respResumeStep_sent_iff _ _ _ _ _ _).2 hs.hcx0]; intro h; cases h
+      obtain ⟨rec0, iRnd0, iSid0, dest0, iEph0, hfind0, hm0, hcase0⟩ := respResumeStep_accepts _ _ _ _ _ h0
+      rw [s1r_shape hs] at hm0
+      simp only [Msg.sigma1.injEq, Option.some.injEq, Prod.mk.injEq] at hm0
+      have hrid0 : hs.recI.rid = rec0.rid := hm0.2.2.2.2.1
+      rw [hrid, hrid0, hfind0] at hfind
+      cases hfind
+      rcases hcase0 with ⟨fb, _, hfb, _⟩ | ⟨_, hab0⟩
+      · rw [hfn] at hfb; cases hfb
+      · rw [(respResumeStep_sent_iff _ _ _ _ _ _).2 hs.hcx0] at hab0; cases hab0
     cases hrr : respResume cfg.fabricsR cfg.cacheR m cfg.ridR cfg.sidR with
     | some cx =>
-      have hstep : stepResp cfg r m = (.sent2r cx, [cx.s2r]) := by rw [hr]; simp [stepResp, hrr]
+      have hstep : stepResp cfg r m = (.sent2r cx, [cx.s2r]) := by
+        rw [hr]; simp [stepResp, (respResumeStep_sent_iff _ _ _ _ _ _).2 hrr]
       rw [hstep]
       left
       -- the MIC it accepted is the one of the initiator's Sigma1
@@ -1243,9 +1680,14 @@ theorem cleanRes_resp {A : Attacker} {cfg : HsCfg} (hs : ResumeSetting A cfg) {i
           rw [h, e1]; exact Or.inr (Or.inr (Or.inr rfl))
       · intro h; cases h
     | none =>
+      have hft : respResumeStep cfg.fabricsR cfg.cacheR m cfg.ridR cfg.sidR = .fallThrough := by
+        cases hst : respResumeStep cfg.fabricsR cfg.cacheR m cfg.ridR cfg.sidR with
+        | fallThrough => rfl
+        | sent cx => rw [(respResumeStep_sent_iff _ _ _ _ _ _).1 hst] at hrr; cases hrr
+        | aborted s2r => exact absurd hst (hnab s2r)
       cases hr1 : respSigma1 cfg.fabricsR m cfg.ephR cfg.rndR cfg.ridR cfg.sidR with
       | sent ctx =>
-        have hstep : stepResp cfg r m = (.sent2 ctx, [ctx.s2]) := by rw [hr]; simp [stepResp, hrr, hr1]
+        have hstep : stepResp cfg r m = (.sent2 ctx, [ctx.s2]) := by rw [hr]; simp [stepResp, hft, hr1]
         rw [hstep]
         right
         have hm : m ≠ cfg.init0.s1 := by
@@ -1264,7 +1706,7 @@ theorem cleanRes_resp {A : Attacker} {cfg : HsCfg} (hs : ResumeSetting A cfg) {i
             exact Or.inr (Or.inl h)
       | refused =>
         have hstep : stepResp cfg r m = (.done none, [.status false]) := by
-          rw [hr]; simp [stepResp, hrr, hr1]
+          rw [hr]; simp [stepResp, hft, hr1]
         rw [hstep]
         left
         refine ⟨?_, hc.i_ok, Or.inr (Or.inr (Or.inl rfl)), ?_⟩
@@ -1450,9 +1892,8 @@ def hResIr {A : Attacker} {cfg : HsCfg} (hs : ResumeSetting A cfg) : Result :=
 def hResRr {A : Attacker} {cfg : HsCfg} (hs : ResumeSetting A cfg) : Result :=
   respResumeFinish hs.cx0 (.status true)
 
-/-- each end: no session, or the session of the untouched run (up to the unauthenticated peer
-session id) with the same rotated cache record -/
-def OutcomeRes {A : Attacker} {cfg : HsCfg} (hs : ResumeSetting A cfg) (n : Net) : Prop :=
+/-- (against the defined terms; `OutcomeRes` below is the statement against the run function) -/
+def OutcomeRes0 {A : Attacker} {cfg : HsCfg} (hs : ResumeSetting A cfg) (n : Net) : Prop :=
   (n.i.result = none ∨ Result.modSid n.i.result = Result.modSid (hResIr hs)) ∧
   (n.r.result = none ∨ Result.modSid n.r.result = Result.modSid (hResRr hs))
 
@@ -1473,7 +1914,7 @@ theorem initResume_modSid (c : InitCtx) (a b s s' : Term) (p : Session × ResRec
       simp [hmic, Result.modSid, modSid]
 
 theorem invRes_outcome {A : Attacker} {cfg : HsCfg} (hs : ResumeSetting A cfg) {n : Net} {k : Nat}
-    (h : InvRes hs n k) : OutcomeRes hs n := by
+    (h : InvRes hs n k) : OutcomeRes0 hs n := by
   rcases h with hc | ⟨_, hd⟩
   · constructor
     · rcases hc.i_ok with h | h | ⟨m', p, ⟨a, b, s, s', h1, h2⟩, hp, h⟩
@@ -1498,7 +1939,7 @@ theorem invRes_outcome {A : Attacker} {cfg : HsCfg} (hs : ResumeSetting A cfg) {
 
 theorem invRes_run {A : Attacker} {cfg : HsCfg} (hs : ResumeSetting A cfg) :
     ∀ (n : Net) (k : Nat) (ops : List NetOp), Sched A cfg n k ops → k ≤ 1 → InvRes hs n k →
-      OutcomeRes hs (n.run cfg ops) := by
+      OutcomeRes0 hs (n.run cfg ops) := by
   intro n k ops hsched
   induction hsched with
   | nil n k => intro _ hinv; exact invRes_outcome hs hinv
@@ -1511,16 +1952,9 @@ theorem invRes_run {A : Attacker} {cfg : HsCfg} (hs : ResumeSetting A cfg) :
     subst hk0
     exact ih (by omega) ((invRes_step hs n 1 op hinv).2 hf rfl)
 
-/-- **C01, network form (resumed handshake)**: the same statement for a handshake in which the
-initiator offers resumption and the responder accepts it — every schedule, at most one message
-of the attacker's own making (which covers every mutation of the resumption id, either MIC, any
-other field of Sigma1 / Sigma2_Resume, and the final status report): each end finishes with no
-session or the session of the untouched run — identity (fabric, node id, CATs) and keys taken
-from the cached record whose shared secret made the MIC — up to the peer session id, and the same
-rotated cache record. -/
-theorem net_single_mutation_resume {A : Attacker} {cfg : HsCfg} (hs : ResumeSetting A cfg)
+theorem net_resume_inv0 {A : Attacker} {cfg : HsCfg} (hs : ResumeSetting A cfg)
     (ops : List NetOp) (hsched : Sched A cfg (Net.start cfg) 1 ops) :
-    OutcomeRes hs ((Net.start cfg).run cfg ops) := by
+    OutcomeRes0 hs ((Net.start cfg).run cfg ops) := by
   apply invRes_run hs _ 1 ops hsched (Nat.le_refl 1)
   left
   refine ⟨?_, Or.inl rfl, Or.inl rfl, ?_⟩
@@ -1533,13 +1967,60 @@ theorem net_single_mutation_resume {A : Attacker} {cfg : HsCfg} (hs : ResumeSett
     simp only [Net.start, List.mem_cons, List.not_mem_nil, or_false] at hw
     exact Or.inl hw
 
+/-- **the untouched resumed run, in general**: in every configuration of `ResumeSetting` the run
+function on the in-order schedule completes on both ends, with `hResIr` / `hResRr` -/
+theorem honest_run_resume {A : Attacker} {cfg : HsCfg} (hs : ResumeSetting A cfg) :
+    refI cfg = hResIr hs ∧ refR cfg = hResRr hs ∧ (hResIr hs).isSome = true ∧
+      (hResRr hs).isSome = true := by
+  have hs1 := s1r_shape hs
+  obtain ⟨rec, _, _, hsec, _, _, hs2r⟩ := cx0_shape hs
+  have hne : ∀ b, Msg.status b ≠ cfg.init0.s1 := by intro b; rw [hs1]; simp
+  have hne2 : ∀ b, Msg.status b ≠ hs.cx0.s2r := by intro b; rw [hs2r]; simp
+  have hI : (initSigma2Resume cfg.init0 hs.cx0.s2r).isSome = true := by
+    rw [hs2r]
+    unfold initSigma2Resume
+    rw [hs.hcached]
+    simp only [hsec, (init0_fields cfg).2.2.2]
+    simp
+  have hstep := (respResumeStep_sent_iff _ _ _ _ _ _).2 hs.hcx0
+  unfold refI refR hResIr hResRr
+  cases hp : initSigma2Resume cfg.init0 hs.cx0.s2r with
+  | none => rw [hp] at hI; cases hI
+  | some p =>
+    simp [honestOps, Net.run, Net.step, Net.start, stepResp, stepInit, hstep, hp,
+      IState.result, RState.result, hne, hne2, respResumeFinish]
+
+/-- each end: no session, or the session of the untouched run — `Net.run` on `honestOps` — up to
+the unauthenticated peer session id, with the same rotated cache record -/
+def OutcomeRes (cfg : HsCfg) (n : Net) : Prop :=
+  (n.i.result = none ∨ Result.modSid n.i.result = Result.modSid (refI cfg)) ∧
+  (n.r.result = none ∨ Result.modSid n.r.result = Result.modSid (refR cfg))
+
+/-- **C01, network form (resumed handshake)**: the same statement for a handshake in which the
+initiator offers resumption and the responder accepts it — every schedule, at most one message
+of the attacker's own making (which covers every mutation of the resumption id, either MIC, any
+other field of Sigma1 / Sigma2_Resume, and the final status report; NOT covered: MICs of EARLIER
+handshakes under the same long-lived resumption secret, which are not derivable from this exchange's
+wire — `Forgeable`): each end finishes with no session or the session of the untouched run
+(which always completes on both ends here, `honest_run_resume`) — identity (fabric, node id, CATs)
+and keys taken from the cached record whose shared secret made the MIC — up to the peer session
+id, and the same rotated cache record.  No half-open case: the initiator completes on the
+authenticated `Sigma2_Resume`, the responder on the (unauthenticated) success report, and a forged
+success report gives the responder exactly its session of the untouched run. -/
+theorem net_single_mutation_resume {A : Attacker} {cfg : HsCfg} (hs : ResumeSetting A cfg)
+    (ops : List NetOp) (hsched : Sched A cfg (Net.start cfg) 1 ops) :
+    OutcomeRes cfg ((Net.start cfg).run cfg ops) := by
+  obtain ⟨h1, h2⟩ := net_resume_inv0 hs ops hsched
+  obtain ⟨eI, eR, _, _⟩ := honest_run_resume hs
+  exact ⟨by rw [eI]; exact h1, by rw [eR]; exact h2⟩
+
 /-- … and whenever both hold a session, the same directional keys and the same new resumption id -/
 theorem net_resume_keys_agree {A : Attacker} {cfg : HsCfg} (hs : ResumeSetting A cfg)
     (ops : List NetOp) (hsched : Sched A cfg (Net.start cfg) 1 ops) (sI sR : Session) (rI rR : ResRec)
     (hI : ((Net.start cfg).run cfg ops).i.result = some (sI, rI))
     (hR : ((Net.start cfg).run cfg ops).r.result = some (sR, rR)) :
     sR.i2r = sI.i2r ∧ sR.r2i = sI.r2i ∧ rR.rid = rI.rid := by
-  obtain ⟨h1, h2⟩ := net_single_mutation_resume hs ops hsched
+  obtain ⟨h1, h2⟩ := net_resume_inv0 hs ops hsched
   rw [hI] at h1; rw [hR] at h2
   have hi : Result.modSid (some (sI, rI)) = Result.modSid (hResIr hs) := by
     rcases h1 with h | h; cases h; exact h
@@ -1570,18 +2051,22 @@ theorem net_resume_keys_agree {A : Attacker} {cfg : HsCfg} (hs : ResumeSetting A
 
 /-- **C01, tamper clause, as one statement**: in either setting (full or resumed handshake), for
 every schedule with at most one attacker-made message, each end ends with no session or the
-session of the untouched run (for a resumed handshake: up to the unauthenticated peer session id),
-and whenever both ends hold a session they hold the same directional keys. -/
+session of the untouched run = `Net.run` on the in-order schedule (for a resumed handshake: up to the
+unauthenticated peer session id; for a full handshake whose untouched run fails at the responder:
+or, initiator only, the half-open session `HalfOpen`), and whenever both ends hold a session they
+hold the same directional keys. -/
 theorem C01_network {A : Attacker} {cfg : HsCfg} (hs : FullSetting A cfg ⊕' ResumeSetting A cfg)
     (ops : List NetOp) (hsched : Sched A cfg (Net.start cfg) 1 ops) :
     (match hs with
-      | .inl _ => OutcomeFull cfg ((Net.start cfg).run cfg ops)
-      | .inr h => OutcomeRes h ((Net.start cfg).run cfg ops)) ∧
+      | .inl _ => OutcomeFull cfg ((Net.start cfg).run cfg ops) ∧
+          ((refR cfg).isSome = true → OutcomeStrict cfg ((Net.start cfg).run cfg ops))
+      | .inr _ => OutcomeRes cfg ((Net.start cfg).run cfg ops)) ∧
     ∀ sI sR rI rR, ((Net.start cfg).run cfg ops).i.result = some (sI, rI) →
       ((Net.start cfg).run cfg ops).r.result = some (sR, rR) → sR.i2r = sI.i2r ∧ sR.r2i = sI.r2i := by
   cases hs with
   | inl h =>
-    refine ⟨net_single_mutation_full h ops hsched, ?_⟩
+    refine ⟨⟨net_single_mutation_full h ops hsched,
+      fun hok => net_single_mutation_full_strict h hok ops hsched⟩, ?_⟩
     intro sI sR rI rR hI hR
     have := net_full_keys_agree h ops hsched sI sR rI rR hI hR
     exact ⟨this.1, this.2.1⟩
@@ -1598,26 +2083,25 @@ def exCfg : HsCfg :=
     ephI := 11, ephR := 12, rndI := .atom 501, sidI := .atom 601, rndR := .atom 502,
     ridR := .atom 702, sidR := .atom 602 }
 
-/-- knows neither ephemeral secret, signs with key 66 only, holds the responder's certificate -/
-def exAttacker : Attacker := { H := [11, 12], S := (· = 66), C := (· = devNoc) }
+/-- knows neither ephemeral secret; an insider of the fabric (genuine NOC `insiderNoc` for node 300
+on its key 66), signs with key 66, presents every honest certificate and EVERY record of its own
+making (self-issued NOCs for the addressed node id, self-issued intermediates, …): `exS`, `exC` of
+`Props/C01.lean` -/
+def exAttacker : Attacker := { H := [11, 12], S := exS, C := exC }
 
 def exFullSetting : FullSetting exAttacker exCfg :=
   { rI := 501, sI := 601, rR := 502, idR := 702, sR := 602, ipk := 77,
     hrndI := rfl, hsidI := rfl, hrndR := rfl, hridR := rfl, hsidR := rfl, hipk := rfl,
     hephI := by decide, hephR := by decide, hcacheR := (by intro r hr; cases hr),
     hfull := rfl,
-    hcert := (by
-      intro c ic hc _ _
-      have : c = devNoc := hc
-      subst this
-      show ¬ (devNoc.pubKey = 66)
-      decide) }
+    hcert := exHcert }
 
-/-- the untouched run completes on both ends … -/
-example : (hResI exCfg).isSome = true ∧ (hResR exCfg).isSome = true := by decide
-/-- … it is what the run function computes on the in-order schedule … -/
-example : ((Net.start exCfg).run exCfg (honestOps exCfg)).i.result = hResI exCfg ∧
-    ((Net.start exCfg).run exCfg (honestOps exCfg)).r.result = hResR exCfg := by decide
+/-- the untouched run (`Net.run` on `honestOps`) completes on both ends … -/
+example : (refI exCfg).isSome = true ∧ (refR exCfg).isSome = true := by decide
+/-- … so here the tamper clause holds as the property states it, for every schedule -/
+example (ops : List NetOp) (h : Sched exAttacker exCfg (Net.start exCfg) 1 ops) :
+    OutcomeStrict exCfg ((Net.start exCfg).run exCfg ops) :=
+  net_single_mutation_full_strict exFullSetting (by decide) ops h
 /-- … and the in-order schedule is admissible without any forgery -/
 example : Sched exAttacker exCfg (Net.start exCfg) 0 (honestOps exCfg) :=
   .relay _ _ _ _ (by decide) (.relay _ _ _ _ (by decide) (.relay _ _ _ _ (by decide)
@@ -1638,11 +2122,75 @@ example : ((Net.start exCfg).run exCfg [.toResp (.junk 5), .toInit (.status fals
     ((Net.start exCfg).run exCfg [.toResp (.junk 5), .toInit (.status false)]).i.result = none := by
   decide
 
+/-- the attacker USES its certificates: a Sigma2 of its own making, under its own ephemeral secret 99,
+carrying the self-issued chain `selfNoc ← selfIcac` for the addressed node id and a signature with
+its key 66, handed to the initiator instead of the responder's — an admissible single forgery
+(derivation spelled out); the initiator refuses it -/
+def selfSigma2 : Msg :=
+  .sigma2 (.atom 1) (.atom 2) (.epk 99)
+    (.enc (s2k (ecdh 99 (.epk 11)) (.atom 77) (.atom 1) (.epk 99) exCfg.init0.s1) nonceS2
+      (tbe2 selfNoc (some selfIcac) (Term.sign 66 (tbs selfNoc (some selfIcac) (.epk 99) (.epk 11))) (.atom 3)))
+
+example : Sched exAttacker exCfg (Net.start exCfg) 1 [.toResp exCfg.init0.s1, .toInit selfSigma2] := by
+  refine .relay _ _ _ _ (by decide) (.forge _ _ _ _ ?_ (.nil _ _))
+  have hk : Derivable exAttacker.H exAttacker.S exAttacker.C
+      ((((Net.start exCfg).step exCfg (.toResp exCfg.init0.s1)).wire.map Msg.toTerm) ++ [exCfg.fI.ipk])
+      exCfg.init0.s1.toTerm := .known (by decide)
+  have hn : Derivable exAttacker.H exAttacker.S exAttacker.C
+      ((((Net.start exCfg).step exCfg (.toResp exCfg.init0.s1)).wire.map Msg.toTerm) ++ [exCfg.fI.ipk])
+      (.cert selfNoc) := .cert (Or.inr (by intro k h; cases h; rfl))
+  have hi : Derivable exAttacker.H exAttacker.S exAttacker.C
+      ((((Net.start exCfg).step exCfg (.toResp exCfg.init0.s1)).wire.map Msg.toTerm) ++ [exCfg.fI.ipk])
+      (.cert selfIcac) := .cert (Or.inr (by intro k h; cases h; rfl))
+  show Derivable _ _ _ _ selfSigma2.toTerm
+  unfold selfSigma2 Msg.toTerm
+  refine .pair (.atom _) (.pair (.atom _) (.pair (.atom _) (.pair (.epk _) (.enc ?_ (.atom _) ?_))))
+  · exact .kdf (.ownEcdh (by decide) (.epk 11))
+      (.pair (.atom _) (.pair (.atom _) (.pair (.epk _) (.hash hk)))) (.atom _)
+  · exact .pair hn (.pair hi (.pair (.sign rfl (.pair hn (.pair hi (.pair (.epk _) (.epk _))))) (.atom _)))
+example : ((Net.start exCfg).run exCfg [.toResp exCfg.init0.s1, .toInit selfSigma2]).i.result = none := by
+  decide
+
 /-- the theorem applied -/
 example : OutcomeFull exCfg ((Net.start exCfg).run exCfg (honestOps exCfg)) :=
   net_single_mutation_full exFullSetting _
     (.relay _ _ _ _ (by decide) (.relay _ _ _ _ (by decide) (.relay _ _ _ _ (by decide)
       (.relay _ _ _ _ (by decide) (.nil _ _)))))
+
+/-! ### the half-open initiator session is real: the exception in `OutcomeFull` is necessary
+
+The controller's own chain lacks its intermediate, so the responder refuses Sigma3 in the untouched
+run; the attacker relays Sigma1 and Sigma2, swallows Sigma3 (or lets it through — the responder
+refuses it either way) and forges the success report. -/
+
+def cfgBad : HsCfg := { exCfg with fI := { ctlFabric with icac := none } }
+
+def badSetting : FullSetting exAttacker cfgBad :=
+  { rI := 501, sI := 601, rR := 502, idR := 702, sR := 602, ipk := 77,
+    hrndI := rfl, hsidI := rfl, hrndR := rfl, hridR := rfl, hsidR := rfl, hipk := rfl,
+    hephI := by decide, hephR := by decide, hcacheR := (by intro r hr; cases hr),
+    hfull := rfl, hcert := exHcert }
+
+def s2bad : Msg := ((hCtx cfgBad).map (·.s2)).getD (.junk 0)
+def halfOpenAttack : List NetOp := [.toResp cfgBad.init0.s1, .toInit s2bad, .toInit (.status true)]
+
+/-- the untouched run leaves both ends without a session -/
+example : refI cfgBad = none ∧ refR cfgBad = none := by decide
+/-- the attack is an admissible schedule with one attacker-made message (a status report needs no
+secret at all) … -/
+example : Sched exAttacker cfgBad (Net.start cfgBad) 1 halfOpenAttack :=
+  .relay _ _ _ _ (by decide) (.relay _ _ _ _ (by decide)
+    (.forge _ _ _ _ (.pair (.atom _) (.atom _)) (.nil _ _)))
+/-- … after which the initiator holds a session and the responder none: the clause "no session or
+the session of the untouched run" is false here, the third case of `OutcomeFull` is the one that holds -/
+example : ((Net.start cfgBad).run cfgBad halfOpenAttack).i.result.isSome = true ∧
+    ((Net.start cfgBad).run cfgBad halfOpenAttack).r.result = none ∧
+    ¬ OutcomeStrict cfgBad ((Net.start cfgBad).run cfgBad halfOpenAttack) ∧
+    HalfOpen cfgBad ((Net.start cfgBad).run cfgBad halfOpenAttack).i.result := by
+  refine ⟨by decide, by decide, ?_, by decide, by decide, by decide, by decide⟩
+  rintro ⟨h | h, _⟩
+  · revert h; decide
+  · revert h; decide
 
 /-! resumed handshake: both ends hold the record of an earlier handshake (secret `shared 3 4`) -/
 
@@ -1651,7 +2199,7 @@ def exRecR : ResRec := { fabIdx := 2, peerNode := 5, cats := [65537], rid := .at
 
 def exCfgR : HsCfg := { exCfg with cacheI := [exRecI], cacheR := [exRecR] }
 
-def exAttackerR : Attacker := { H := [3, 4, 11, 12], S := (· = 66), C := (· = devNoc) }
+def exAttackerR : Attacker := { H := [3, 4, 11, 12], S := exS, C := exC }
 
 def exCx0 : RespResumeCtx :=
   (respResume exCfgR.fabricsR exCfgR.cacheR exCfgR.init0.s1 exCfgR.ridR exCfgR.sidR).getD default
@@ -1667,12 +2215,7 @@ def exResumeSetting : ResumeSetting exAttackerR exCfgR :=
       have : r = exRecR := by simpa [exCfgR] using hr
       subst this
       exact ⟨3, 4, rfl, by decide, by decide⟩),
-    hcert := (by
-      intro c ic hc _ _
-      have : c = devNoc := hc
-      subst this
-      show ¬ (devNoc.pubKey = 66)
-      decide),
+    hcert := exHcert,
     cx0 := exCx0,
     hcx0 := (by
       have h : (respResume exCfgR.fabricsR exCfgR.cacheR exCfgR.init0.s1 exCfgR.ridR exCfgR.sidR).isSome = true := by
@@ -1686,8 +2229,8 @@ def exResumeSetting : ResumeSetting exAttackerR exCfgR :=
 example : ((hResRr exResumeSetting).map fun p => (p.1.fabIdx, p.1.peerNode, p.1.cats)) =
     some (2, 5, [65537]) := by decide
 example : (hResIr exResumeSetting).isSome = true := by decide
-/-- … computed by the run function on the in-order schedule -/
-example : ((Net.start exCfgR).run exCfgR (honestOps exCfgR)).i.result = hResIr exResumeSetting ∧
-    ((Net.start exCfgR).run exCfgR (honestOps exCfgR)).r.result = hResRr exResumeSetting := by decide
+/-- … computed by the run function on the in-order schedule (`honest_run_resume`, instantiated) -/
+example : refI exCfgR = hResIr exResumeSetting ∧ refR exCfgR = hResRr exResumeSetting :=
+  ⟨(honest_run_resume exResumeSetting).1, (honest_run_resume exResumeSetting).2.1⟩
 
 end C01
